@@ -37,6 +37,7 @@ pub fn filters_of(fs: &Value) -> Vec<BodyFilter> {
                     element_tree: f["path"].as_array().unwrap().iter().map(|x| x.as_str().unwrap().to_string()).collect(),
                     css_selector: match s(f, "sel").as_str() {
                         "none" => None,
+                        "empty" => Some(String::new()),
                         "x" => Some(".x".to_string()),
                         name => Some(format!("{}.x", name)),
                     },
